@@ -305,6 +305,8 @@ class Ctx(object):
         self.frozen = False       # True while evaluating merged sub expressions: forks forbidden -> handled by sub explorer
         self.notes = []
         self.memo = {}
+        self.axioms = []          # facts about uninterpreted library functions: assumed, never part of a goal
+        self._axiom_keys = set()
         self.kind_log = []        # (sym, previous kinds): narrowing is undone when a sub-exploration ends
         self.has_quant = False
         self.phase = 'body'       # 'pre' | 'body' | 'post'
@@ -352,6 +354,19 @@ class Ctx(object):
                 if self.phase == 'post':
                     self.post_prunes += 1
                 raise Infeasible()
+
+    def axiom(self, cond):
+        """ an assumed fact about an uninterpreted (library) function.  Kept apart from the path condition so that
+            sub-explorations can hand it to their parent and merged predicates do not contain it. """
+        k = cond.sexpr()
+        if k in self._axiom_keys:
+            return
+        self._axiom_keys.add(k)
+        self.axioms.append(cond)
+        self.solver.add(cond)
+        if not self.has_quant and ('(forall ' in k or '(exists ' in k):
+            self.has_quant = True
+            self.solver.set('timeout', self.FEAS_TIMEOUT_QUANT_MS)
 
     def branch(self, cond):
         """ fork on a z3 Bool; returns python bool """
@@ -418,7 +433,7 @@ class Ctx(object):
         self.kind_log = []
 
     def oblige(self, kind, name, goal, where=None, note=None):
-        self.obligations.append(Obligation(kind, name, self.pc, goal, where, note))
+        self.obligations.append(Obligation(kind, name, list(self.axioms) + list(self.pc), goal, where, note))
 
 
 # ------------------------------------------------------------------------------------------------ helpers
